@@ -198,7 +198,7 @@ PROPS["C04"] = {
     "bounds": {"designs": {"v1": "ints: body Int min/max required, Int64 enum; query Int min; path Int max; header Int32 min",
                            "v2": "floats: exclusive min+max, min, query Int/Float64 exclusive max, UInt max; strings: rune min/max length, enum, pattern, ipv4 format, header max length",
                            "v3": "array min/max length + element min, map length + key length + elem max, required nested user type, array of user types, map key pattern inside nested user type, query array min length",
-                           "v4": "two body types sharing member names; required Int and ArrayOf(String) query parameters with a default", "v6": "payload extending two bases whose required lists overlap; Reference restating required attributes, two Required calls; an inherited validated attribute re-declared with other validations by two payloads", "v7": "validating primitive aliases as array elements, map keys and values, query and path parameters, with and without attribute-level validations; inline object; required+default body attribute; user type validated only through primitive array elements", "v5": "required cookie with min length after a validated query parameter; map and array of a user type with a required member; body default with minimum"},
+                           "v4": "two body types sharing member names; required Int and ArrayOf(String) query parameters with a default; body made of one required+defaulted attribute, request without a body", "v6": "payload extending two bases whose required lists overlap; Reference restating required attributes, two Required calls; an inherited validated attribute re-declared with other validations by two payloads; Reference to a type with a required attribute plus an own Required of another name", "v7": "validating primitive aliases as array elements, map keys and values, query and path parameters, with and without attribute-level validations; inline object; required+default body attribute; user type validated only through primitive array elements; body = array of arrays of a user type validated only by Required; two methods validating a same-named body attribute with different patterns, served one after the other", "v5": "required cookie with min length after a validated query parameter; map and array of a user type with a required member; body default with minimum"},
                "values": "every numeric leaf a full-width symbolic integer/float; strings up to 4 symbolic bytes (valid UTF-8); parameter texts = decimal rendering of an arbitrary number | junk | absent; arrays up to 3 elements, maps up to 2 entries; body: JSON document | empty | malformed"},
     "assumptions": ["JSON decoding of the request body into the generated body struct follows encoding/json's documented struct mapping (absent/null -> nil pointer); modelled by the harness filling the body struct",
                     "strconv Format/Parse are inverse (exact in the executor through provenance, real text in native replays)",
@@ -219,7 +219,7 @@ PROPS["C02"] = {
     "harness_tag": "c02",
     "quick": r"^VerifC02_", "thorough": r"^VerifC02T?_",
     "shards": {"a1_put": 4},
-    "bounds": {'designs': {'a1': 'PUT /items/{id}/v/{ver}: 2 path, 4 query (one with default), 2 header, 1 cookie, 6 body attributes (string, int with default, float, array, nested user type, map)', 'a2': 'alias-typed optional/required query and header parameters', 'a3': 'map-typed query parameters, array query/header parameters, optional pointer primitives', 'a4': 'two base paths with the same wildcards (string, int) in a different order: every path constructor; absolute route with a trailing slash; relative route under a service base path', 'a5': 'array and map attributes with defaults (unset / explicitly empty / populated), GET and DELETE catch-all wildcards with different names on one pattern', 'a6': 'service-level path parameter, header and query parameter inherited by two methods that define the parameter differently; UInt/Float32/Bytes, nested arrays, UInt32 array in a header, defaulted Int array in the query'}, 'values': 'full-width symbolic numbers, strings of 1-2 arbitrary bytes (headers/cookies: visible ASCII), one attribute group varied at a time'},
+    "bounds": {'designs': {'a1': 'PUT /items/{id}/v/{ver}: 2 path, 4 query (one with default), 2 header, 1 cookie, 6 body attributes (string, int with default, float, array, nested user type, map)', 'a2': 'alias-typed optional/required query and header parameters', 'a3': 'map-typed query parameters, array query/header parameters, optional pointer primitives', 'a4': 'two base paths with the same wildcards (string, int) in a different order: every path constructor; absolute route with a trailing slash; relative route under a service base path', 'a5': 'array and map attributes with defaults (unset / explicitly empty / populated), GET and DELETE catch-all wildcards with different names on one pattern', 'a6': 'service-level path parameter, header and query parameter inherited by two methods that define the parameter differently; UInt/Float32/Bytes, nested arrays, UInt32 array in a header, defaulted Int array in the query', 'a7': 'primitive (String) payload; one method on two routes; Boolean header with default, required Float64 header, optional UInt header; bodies made of one attribute (string array, optional Bytes)'}, 'values': 'full-width symbolic numbers, strings of 1-2 arbitrary bytes (headers/cookies: visible ASCII), one attribute group varied at a time'},
     "assumptions": ['HTTP transports header/cookie/query values unchanged (identity containers); header strings are visible ASCII'],
     "outside": ["path values containing '/' and zero-valued defaulted parameters are known findings", 'strings longer than 2 bytes', 'designs outside the catalogue (the generator cannot be executed on a symbolic design)', 'XML/gob/form/multipart bodies, websocket streaming, file servers', 'present-but-empty parameter texts'],
     "manifest": {"text": 'Translation validation of generated client and server against each other: a symbolic payload is pushed through the generated client (BuildXRequest, EncodeXRequest, path functions, body constructors), over a wire model (request-target re-parsed by the real net/url, headers, cookies, JSON body by tag name) into the generated server mounted on the real goa muxer+chi, and the solver decides for all values within the bounds that the payload received by the service method equals the payload sent (defaults applied), attribute by attribute.', "note": 'Trusted: gosym executor, z3, the hand-written oracle of each catalogue design; transport seams modelled as identity containers (encoding/json by tag name - real encoding/json in native replays -, url.Values, cookies, Basic auth). The generator runs for real on every run in a scratch module (replace goa => /repo); counterexamples and sampled witnesses are replayed natively against the generated code.'},
@@ -233,7 +233,7 @@ PROPS["C03"] = {
     "harness_tag": "c03",
     "assert_exclude": r"^openapi:",
     "quick": r"^VerifC03_", "thorough": r"^VerifC03T?_",
-    "bounds": {'designs': {'a1': 'result with body attributes (string, int with default, nested user type, array) and two header attributes', 'a2': 'three responses selected by tag value (200/202/201), IPv6-formatted attribute validated by the client', 'a3': 'array and optional primitives in response headers', 'a5': 'result array/map with defaults (unset / explicitly empty / populated); tagged response whose explicit body leaves the tag attribute out', 'a6': 'two success responses with their own headers (string array, UInt64), Float32/Bytes in the body; two response cookies (one optional)'}, 'values': 'full-width symbolic numbers, strings up to 2 bytes'},
+    "bounds": {'designs': {'a1': 'result with body attributes (string, int with default, nested user type, array) and two header attributes', 'a2': 'three responses selected by tag value (200/202/201), IPv6-formatted attribute validated by the client', 'a3': 'array and optional primitives in response headers', 'a5': 'result array/map with defaults (unset / explicitly empty / populated); tagged response whose explicit body leaves the tag attribute out', 'a6': 'two success responses with their own headers (string array, UInt64), Float32/Bytes in the body; three response cookies (string required, string optional, integer optional)', 'a7': 'array-of-Int result, map-of-user-type result, response whose body is one map attribute with another attribute in a header'}, 'values': 'full-width symbolic numbers, strings up to 2 bytes'},
     "assumptions": ['HTTP transports header values unchanged; header strings are visible ASCII'],
     "outside": ['designs outside the catalogue (the generator cannot be executed on a symbolic design)', 'XML/gob/form/multipart bodies, websocket streaming, file servers', 'present-but-empty parameter texts'],
     "manifest": {"text": 'Translation validation of generated server encoder against generated client decoder: a symbolic result returned by the service is encoded by the generated server (status selection by tag, headers, body constructors), carried back over the wire model and decoded/validated by the generated client; the solver decides that status = designed status, exactly one response is written, header attributes travel in headers, and the client result equals the service result with defaults applied; a result violating a format is refused by the client.', "note": 'Trusted: gosym executor, z3, the hand-written oracle of each catalogue design; transport seams modelled as identity containers (encoding/json by tag name - real encoding/json in native replays -, url.Values, cookies, Basic auth). The generator runs for real on every run in a scratch module (replace goa => /repo); counterexamples and sampled witnesses are replayed natively against the generated code.'},
@@ -246,7 +246,7 @@ PROPS["C06"] = {
     "designs": ["s1", "s2", "s3"],
     "harness_tag": "c06",
     "quick": r"^VerifC06_", "thorough": r"^VerifC06T?_",
-    "bounds": {'designs': {'s1': 'Basic, JWT (2 scopes), API key; service-level Basic; method with two alternative requirements basic | (jwt & api_key with required scope); method inheriting the service requirement; NoSecurity method; credentials in Authorization (Basic), custom header (token), query (key)', 's2': 'API-level API-key requirement inherited; service-level JWT with scopes; method-level OAuth2 (query); implicit Authorization with Body("name") and with an inline body; NoSecurity', 's3': 'JWT | OAuth2 alternatives whose credentials both arrive in Authorization, with and without scheme prefix'}, 'values': 'all 8 callback outcome vectors, credentials of 0-2 (token up to 5) symbolic bytes, presence of every credential'},
+    "bounds": {'designs': {'s1': 'Basic, JWT (2 scopes), API key; service-level Basic; method with two alternative requirements basic | (jwt & api_key with required scope); method inheriting the service requirement; NoSecurity method; credentials in Authorization (Basic), custom header (token), query (key)', 's2': 'API-level API-key requirement inherited; service-level JWT with scopes; method-level OAuth2 (query); implicit Authorization with Body("name") and with an inline body; NoSecurity', 's3': 'JWT | OAuth2 alternatives whose credentials both arrive in Authorization, with and without scheme prefix; Security at API level (basic) and a stricter one at service level (basic+jwt with scope) inherited by a method'}, 'values': 'all 8 callback outcome vectors, credentials of 0-2 (token up to 5) symbolic bytes, presence of every credential'},
     "assumptions": ["Basic user ids contain no ':' (RFC 7617); header credentials are visible ASCII"],
     "outside": ['OAuth2 flows', 'API-level requirements', 'designs outside the catalogue (the generator cannot be executed on a symbolic design)', 'XML/gob/form/multipart bodies, websocket streaming, file servers', 'present-but-empty parameter texts'],
     "manifest": {"text": "Translation validation of the generated endpoint wrappers and credential plumbing: with recording authorization callbacks whose outcomes are symbolic, the solver decides that the service method runs iff the design's OR-of-ANDs requirement formula holds, that a refusal returns one of the callbacks' errors, that each callback receives the payload's credential for its scheme with the designed scopes, that a satisfied requirement had all its schemes consulted, that NoSecurity methods run without callbacks and inherited requirements apply; over HTTP, credentials written by the generated client are the ones the callbacks receive behind the generated server.", "note": 'Trusted: gosym executor, z3, the hand-written oracle of each catalogue design; transport seams modelled as identity containers (encoding/json by tag name - real encoding/json in native replays -, url.Values, cookies, Basic auth). The generator runs for real on every run in a scratch module (replace goa => /repo); counterexamples and sampled witnesses are replayed natively against the generated code.'},
@@ -260,7 +260,7 @@ PROPS["C05"] = {
     "harness_tag": "c05",
     "assert_exclude": r"^openapi:",
     "quick": r"^VerifC05_", "thorough": r"^VerifC05T?_",
-    "bounds": {'designs': {'e1': 'service-level error, method errors of ErrorResult, a custom object type shared by two errors on one status (409), a primitive error type; 10 kinds of returned error incl. wrapped, undeclared with every flag vector, plain Go error, custom type with undeclared name; errors whose Timeout/Temporary/Fault flags are fixed in the design', 'e3': 'errors declared at API level, mapped at API level (410) and service level (409), re-declared by two methods in either order; custom error type with three attributes in response cookies (one renamed, one optional)', 'e2': 'two errors of one type on one status with different mappings (attribute in a header), two ErrorResult errors on one status (message in a header), status set with Code() inside the response function at method and service level'}},
+    "bounds": {'designs': {'e1': 'service-level error, method errors of ErrorResult, a custom object type shared by two errors on one status (409), a primitive error type; 10 kinds of returned error incl. wrapped, undeclared with every flag vector, plain Go error, custom type with undeclared name; errors whose Timeout/Temporary/Fault flags are fixed in the design', 'e1+': 'undeclared service error wrapped by user code (kind 15)', 'e3': 'errors declared at API level, mapped at API level (410) and service level (409), re-declared by two methods in either order; custom error type with three attributes in response cookies (one renamed, one optional)', 'e2': 'two errors of one type on one status with different mappings (attribute in a header), two ErrorResult errors on one status (message in a header), status set with Code() inside the response function at method and service level'}},
     "assumptions": [],
     "outside": ['request-decoding failures (covered by C04 harnesses)', 'error headers / goa-attribute-* headers', 'designs outside the catalogue (the generator cannot be executed on a symbolic design)', 'XML/gob/form/multipart bodies, websocket streaming, file servers', 'present-but-empty parameter texts'],
     "manifest": {"text": "Translation validation of the generated error encoder and client error decoding together with goa's default ErrorEncoder/NewErrorResponse/StatusCode: for every kind of error the service can return the solver decides that exactly one response is written, the status is the designed one or follows the documented flag table, the goa-error header names the error, errors sharing a status are told apart, and the generated client returns an error of the designed Go type with the same name and attribute values.", "note": 'Trusted: gosym executor, z3, the hand-written oracle of each catalogue design; transport seams modelled as identity containers (encoding/json by tag name - real encoding/json in native replays -, url.Values, cookies, Basic auth). The generator runs for real on every run in a scratch module (replace goa => /repo); counterexamples and sampled witnesses are replayed natively against the generated code.'},
@@ -274,7 +274,7 @@ PROPS["C08"] = {
     "harness_tag": "c08",
     "assert_exclude": r"^openapi:",
     "quick": r"^VerifC08_", "thorough": r"^VerifC08T?_",
-    "bounds": {'designs': {'w1': 'result type with views default/tiny, nested result type with per-view override, collection, method with the view fixed in the design', 'w2': 'nested attribute carrying a view at type level and a different per-view override; dynamic and fixed-view methods on one result type; collection declared with a DSL that defines no view', 'w3': 'view that omits the attribute a tagged response is selected by; nested result type without a chosen view whose type also defines the parent view; client validation of a fixed-view response (missing required attribute, pattern)'}, 'values': 'symbolic attribute values, view names default/tiny/empty, labels: every string up to 7 visible bytes that is not a defined view'},
+    "bounds": {'designs': {'w1': 'result type with views default/tiny, nested result type with per-view override, collection, method with the view fixed in the design', 'w2': 'nested attribute carrying a view at type level and a different per-view override; dynamic and fixed-view methods on one result type; collection declared with a DSL that defines no view', 'w3': 'view that omits the attribute a tagged response is selected by; nested result type without a chosen view whose type also defines the parent view; client validation of a fixed-view response (missing required attribute, pattern); result type below two array levels whose default view hides an attribute; two look-alike result types with different views in one parent'}, 'values': 'symbolic attribute values, view names default/tiny/empty, labels: every string up to 7 visible bytes that is not a defined view'},
     "assumptions": [],
     "outside": ['recursive result types (the generator emits duplicate types for them, C01)', 'designs outside the catalogue (the generator cannot be executed on a symbolic design)', 'XML/gob/form/multipart bodies, websocket streaming, file servers', 'present-but-empty parameter texts'],
     "manifest": {"text": 'Translation validation of generated view projection (NewViewedX, newXView*, server response bodies per view, goa-view header, client decode + views-package validation + NewX): the solver decides that the wire document (inspected through its JSON member names) carries exactly the attributes of the selected view, recursively with per-attribute overrides and for collections, that the view name accompanies the response, that the client rebuilds equal in-view attributes and leaves out-of-view attributes unset, that the empty name means default, and that every undefined view label is refused.', "note": 'Trusted: gosym executor, z3, the hand-written oracle of each catalogue design; transport seams modelled as identity containers (encoding/json by tag name - real encoding/json in native replays -, url.Values, cookies, Basic auth). The generator runs for real on every run in a scratch module (replace goa => /repo); counterexamples and sampled witnesses are replayed natively against the generated code.'},
@@ -388,7 +388,7 @@ PROPS["C10"] = {
     "proto_errors_are_violations": True,
     "harness_tag": "c10",
     "quick": r"^VerifC10_", "thorough": r"^VerifC10T?_",
-    "bounds": {"designs": {"p1": "unary method: string, optional sint32 (Minimum 1), sint64, bool, double, uint32, repeated string, nested message, map<string,sint32>, required metadata attribute, optional metadata attribute with Enum, UInt64 array in metadata; explicit response message with required members (and a message lacking one); goa's client invoker with 3 shapes of caller metadata; result with nested message",
+    "bounds": {"designs": {"p1": "unary method: string, optional sint32 (Minimum 1), sint64, bool, double, uint32, repeated string, nested message, map<string,sint32>, required metadata attribute, optional metadata attribute with Enum, UInt64 array in metadata; UInt64 scalar in metadata; explicit response message with required members (and a message lacking one); validated user types nested two levels deep in request and response (method move); goa's client invoker with 3 shapes of caller metadata; result with nested message",
                            "p2": "OneOf with alias-typed alternatives (proto text only)"},
                "values": "full-width symbolic numbers, strings up to 2 bytes, one attribute group at a time"},
     "assumptions": ["protoc, protoc-gen-go and protoc-gen-go-grpc are not installed: /verif/tools/fakeprotoc/protoc turns goa's .proto into stand-in Go message structs with protoc-gen-go's field naming and the service client/server interfaces; protobuf marshalling of a message is the identity on those structs",
